@@ -59,7 +59,7 @@ txt = {
  "PV_max": "4294967295", "PV_huge": "99999999999999999999999", "PV_60": "60", "PV_q0000": "0.000", "PV_q025": "0.25", "U_comma": "sip:a,b@h;x=1,2", "WSH": "\t",
  # URI component values of the URI-pair generator (GenURI.tla, C15)
  "GU_sip": "sip", "GU_sips": "sips", "GU_e": "", "GU_al": "al", "GU_Al": "Al", "GU_pw": "pw", "GU_Pw": "Pw",
- "GU_hx": "h.x", "GU_Hx": "H.x", "GU_gy": "g.y", "GU_5060": "5060", "GU_5070": "5070",
+ "GU_hx": "h.x", "GU_Hx": "H.x", "GU_gy": "g.y", "GU_v6": "[2001:db8::a]", "GU_v4": "10.0.0.1", "GU_5060": "5060", "GU_5070": "5070",
  "GU_transport": "transport", "GU_user": "user", "GU_ttl": "ttl", "GU_method": "method", "GU_maddr": "maddr",
  "GU_lr": "lr", "GU_foo": "foo", "GU_bar": "bar", "GU_a": "a", "GU_A": "A", "GU_b": "b",
  "GU_s": "s", "GU_S": "S", "GU_t": "t", "GU_acb": "a,b",
